@@ -8,7 +8,8 @@
 
    Trackers on the holder have identity (index in h_trk): a proxy and a pending decref-answer callback refer to
    their tracker object, while the import table maps clid -> tracker; freeYourReferenceTracker deletes the table
-   entry BY CLID (freeTracker_delkey, read from the source), which is what D16 exploits. *)
+   entry only if it still IS the answered tracker (freeTracker_delkey, read from the source; fix ab72d65 -- it used to delete BY
+   CLID, which is what D16 exploited; the old rule is kept as a parameter value, step_k DelByClid). *)
 From Coq Require Import ZArith List Bool Lia.
 Import ListNotations.
 Require Import Verif.lib.PyLite Verif.gen.RefsGen.
@@ -291,7 +292,7 @@ Fixpoint run_events (s : state) (ops : list op) : list (list event) :=
 
 (* ---------------------------------------------------------------- the same system with the deletion rule of
    freeYourReferenceTracker as a PARAMETER (the source's rule is freeTracker_delkey; `step_k freeTracker_delkey` is `step`).
-   DelByIdentity is the candidate repair of D16: the answer to a decref removes the import-table entry only if that entry
+   DelByIdentity is the repair of D16 (ab72d65): the answer to a decref removes the import-table entry only if that entry
    still is the answered tracker (`if self.yourReferenceByCLID.get(tracker.clid) is tracker`). *)
 Definition do_ack_k (k : delkey) (s : state) (rid : Z) (rest : list msgOH) : state * list event :=
   let h := hd s in
@@ -396,6 +397,8 @@ Definition safe_op (s : state) (o : op) : bool :=
 
 Fixpoint safe_run (s : state) (ops : list op) : Prop :=
   match ops with [] => True | o :: r => safe_op s o = true /\ safe_run (fst (step s o)) r end.
+Fixpoint safe_run_k (k : delkey) (s : state) (ops : list op) : Prop :=
+  match ops with [] => True | o :: r => safe_op s o = true /\ safe_run_k k (fst (step_k k s o)) r end.
 
 (* observations used by the correspondence check *)
 Definition alive (t : tracker) : bool := match t_proxy t with Some _ => true | None => false end.
